@@ -436,10 +436,12 @@ def readX (s : Schema) (ent : Nat) (r : Row) (onAlias : Bool) (fld : Nat) : Val 
 
 theorem lhsVal_read (nm : Names) (s : Schema) (ent : Nat)
     (hinj : ∀ a b, nm.fieldShort ent a = nm.fieldShort ent b → a = b)
-    (sels : List Sel) (hdist : distinctKeys (sels.map Sel.key) = true)
+    (sels : List Sel) (V : Row → List (String × J))
+    (hV : ∀ (r : Row) (name : String) (fld : Nat), sels.any (isScalarSel name fld) = true →
+      assoc name (V r) = some (projSpec s r (.scalar name fld)).2)
     (r : Row) (hr : r.ent = ent) (onAlias : Bool) (name : String) (fld : Nat)
     (hf : fieldOk s ent fld = true) (ha : (!onAlias || sels.any (isScalarSel name fld)) = true) :
-    lhsVal (encodeRow nm r) (sels.map (projSpec s r)) (if onAlias then .value name else .json (nm.fieldShort ent fld)) =
+    lhsVal (encodeRow nm r) (V r) (if onAlias then .value name else .json (nm.fieldShort ent fld)) =
       SqlVal.ofScalar (readX s ent r onAlias fld) := by
   subst hr
   obtain ⟨fd, hfd, _, _⟩ := fieldOk_def hf
@@ -447,7 +449,7 @@ theorem lhsVal_read (nm : Names) (s : Schema) (ent : Nat)
   | true =>
     simp only [Bool.not_true, Bool.false_or] at ha
     simp only [if_true, lhsVal, readX, hfd]
-    rw [assoc_projSpec s r name fld sels hdist ha]
+    rw [hV r name fld ha]
     simp only [projSpec, hfd, ofJ_ofVal]
   | false =>
     simp only [Bool.false_eq_true, if_false, lhsVal, readX]
@@ -599,21 +601,23 @@ theorem defaultOf_eq {s : Schema} {ent fld : Nat} {fd : FieldDef} (h : fieldDef 
 /-- **one filter**: its SQL condition is true for a stored row iff the evaluator's filter holds for the row -/
 theorem filterCond_spec (env : String → Val) (nm : Names) (s : Schema) (ent : Nat)
     (hinj : ∀ a b, nm.fieldShort ent a = nm.fieldShort ent b → a = b)
-    (sels : List Sel) (hdist : distinctKeys (sels.map Sel.key) = true)
+    (sels : List Sel) (V : Row → List (String × J))
+    (hV : ∀ (r : Row) (name : String) (fld : Nat), sels.any (isScalarSel name fld) = true →
+      assoc name (V r) = some (projSpec s r (.scalar name fld)).2)
     (ps : Binds) (var : String) (f : Filter)
     (hf : fieldOk s ent f.fld = true) (ha : (!f.onAlias || sels.any (isScalarSel f.name f.fld)) = true)
     (hnull : (f.isParam || f.value != .null || defaultOf s ent f.fld == none) = true)
     (henv : f.isParam = true → env var = f.value) :
     ∃ e, (filterCond nm s ent ps var f).1 = ps ++ e ∧
       ∀ (more : Binds) (r : Row), r.ent = ent →
-        (cond3 (bindVal env ((filterCond nm s ent ps var f).1 ++ more)) (encodeRow nm r) (sels.map (projSpec s r))
+        (cond3 (bindVal env ((filterCond nm s ent ps var f).1 ++ more)) (encodeRow nm r) (V r)
             (filterCond nm s ent ps var f).2 = some true ↔ filterHolds D s ent r f = true) := by
   obtain ⟨fd, hfd, _, hdn⟩ := fieldOk_def hf
   obtain ⟨e1, he1, hval⟩ := filterValue_spec env ps var f henv
   have hlhs : ∀ r : Row, r.ent = ent →
-      lhsVal (encodeRow nm r) (sels.map (projSpec s r)) (filterLhs nm ent f) =
+      lhsVal (encodeRow nm r) (V r) (filterLhs nm ent f) =
         SqlVal.ofScalar (readX s ent r f.onAlias f.fld) :=
-    fun r hr => lhsVal_read nm s ent hinj sels hdist r hr f.onAlias f.name f.fld hf ha
+    fun r hr => lhsVal_read nm s ent hinj sels V hV r hr f.onAlias f.name f.fld hf ha
   rcases hval with ⟨hp, hv, hop, hrhs⟩ | ⟨hpv, hop, hst⟩
   · -- the literal `null`: no default, `is` / `is not`
     have hno : defaultOf s ent f.fld = none := by
@@ -654,7 +658,9 @@ def FilterWf (s : Schema) (ent : Nat) (sels : List Sel) (f : Filter) : Prop :=
 /-- **all filters**: the AND-ed conditions are all true for a stored row iff every filter holds for the row -/
 theorem filtersLoop_spec (env : String → Val) (nm : Names) (s : Schema) (ent : Nat)
     (hinj : ∀ a b, nm.fieldShort ent a = nm.fieldShort ent b → a = b)
-    (sels : List Sel) (hdist : distinctKeys (sels.map Sel.key) = true) (vn : Nat → String) :
+    (sels : List Sel) (V : Row → List (String × J))
+    (hV : ∀ (r : Row) (name : String) (fld : Nat), sels.any (isScalarSel name fld) = true →
+      assoc name (V r) = some (projSpec s r (.scalar name fld)).2) (vn : Nat → String) :
     ∀ (fs : List Filter) (ps : Binds) (i : Nat),
       (∀ f ∈ fs, FilterWf s ent sels f) →
       (∀ j f, fs[j]? = some f → f.isParam = true → env (vn (i + j)) = f.value) →
@@ -662,7 +668,7 @@ theorem filtersLoop_spec (env : String → Val) (nm : Names) (s : Schema) (ent :
         ∀ (more : Binds) (r : Row), r.ent = ent →
           ((∀ c ∈ (filtersLoop nm s ent vn ps i fs).2,
               cond3 (bindVal env ((filtersLoop nm s ent vn ps i fs).1 ++ more)) (encodeRow nm r)
-                (sels.map (projSpec s r)) c = some true) ↔
+                (V r) c = some true) ↔
             ∀ f ∈ fs, filterHolds D s ent r f = true) := by
   intro fs
   induction fs with
@@ -670,7 +676,7 @@ theorem filtersLoop_spec (env : String → Val) (nm : Names) (s : Schema) (ent :
   | cons f rest ih =>
     intro ps i hwf henv
     obtain ⟨hf, ha, hn⟩ := hwf f (by simp)
-    obtain ⟨e1, he1, h1⟩ := filterCond_spec env nm s ent hinj sels hdist ps (vn i) f hf ha hn
+    obtain ⟨e1, he1, h1⟩ := filterCond_spec env nm s ent hinj sels V hV ps (vn i) f hf ha hn
       (fun hp => by have := henv 0 f (by simp) hp; simpa using this)
     obtain ⟨e2, he2, h2⟩ := ih (filterCond nm s ent ps (vn i) f).1 (i + 1)
       (fun g hg => hwf g (by simp [hg]))
@@ -698,11 +704,13 @@ theorem keyOf_eq_readX (s : Schema) (ent : Nat) (r : Row) (o : Order) (h : field
 /-- the SQL value of an order term on a stored row is the evaluator's order key -/
 theorem lhsVal_order (nm : Names) (s : Schema) (ent : Nat)
     (hinj : ∀ a b, nm.fieldShort ent a = nm.fieldShort ent b → a = b)
-    (sels : List Sel) (hdist : distinctKeys (sels.map Sel.key) = true)
+    (sels : List Sel) (V : Row → List (String × J))
+    (hV : ∀ (r : Row) (name : String) (fld : Nat), sels.any (isScalarSel name fld) = true →
+      assoc name (V r) = some (projSpec s r (.scalar name fld)).2)
     (r : Row) (hr : r.ent = ent) (o : Order) (ho : OrderWf s ent sels o) :
-    lhsVal (encodeRow nm r) (sels.map (projSpec s r)) (orderLhs nm ent o) = SqlVal.ofScalar (keyOf D s ent r o) := by
+    lhsVal (encodeRow nm r) (V r) (orderLhs nm ent o) = SqlVal.ofScalar (keyOf D s ent r o) := by
   rw [keyOf_eq_readX s ent r o ho.1]
-  exact lhsVal_read nm s ent hinj sels hdist r hr o.onAlias o.name o.fld ho.1 ho.2
+  exact lhsVal_read nm s ent hinj sels V hV r hr o.onAlias o.name o.fld ho.1 ho.2
 
 theorem all3_nil : all3 [] = some true := rfl
 theorem all3_cons_true (x : Option Bool) (l : List (Option Bool)) :
@@ -767,12 +775,14 @@ theorem altHolds_cons_ne (before : Bool) (K : Order → Val) (o : Order) (c : Va
 
 theorem pagingAlt_spec (env : String → Val) (nm : Names) (s : Schema) (ent : Nat)
     (hinj : ∀ a b, nm.fieldShort ent a = nm.fieldShort ent b → a = b)
-    (sels : List Sel) (hdist : distinctKeys (sels.map Sel.key) = true) (before : Bool) :
+    (sels : List Sel) (V : Row → List (String × J))
+    (hV : ∀ (r : Row) (name : String) (fld : Nat), sels.any (isScalarSel name fld) = true →
+      assoc name (V r) = some (projSpec s r (.scalar name fld)).2) (before : Bool) :
     ∀ (p : List (Order × Val)) (ps : Binds), (∀ x ∈ p, OrderWf s ent sels x.1) →
       ∃ e, (pagingAlt nm ent before ps p).1 = ps ++ e ∧
         ∀ (more : Binds) (r : Row), r.ent = ent →
           (all3 ((pagingAlt nm ent before ps p).2.map
-              (atom3 (bindVal env ((pagingAlt nm ent before ps p).1 ++ more)) (encodeRow nm r) (sels.map (projSpec s r)))) =
+              (atom3 (bindVal env ((pagingAlt nm ent before ps p).1 ++ more)) (encodeRow nm r) (V r))) =
               some true ↔ altHolds before (keyOf D s ent r) p = true) := by
   intro p
   induction p with
@@ -787,7 +797,7 @@ theorem pagingAlt_spec (env : String → Val) (nm : Names) (s : Schema) (ent : N
       refine ⟨e1, by simp only [pagingAlt]; exact he1, ?_⟩
       intro more r hr
       simp only [pagingAlt, List.map_cons, List.map_nil, altHolds, pagingOp_eq]
-      rw [all3_cons_true, atom_true_iff _ _ _ _ _ _ _ c (lhsVal_order nm s ent hinj sels hdist r hr o ho) (hst more)]
+      rw [all3_cons_true, atom_true_iff _ _ _ _ _ _ _ c (lhsVal_order nm s ent hinj sels V hV r hr o ho) (hst more)]
       simp [all3_nil]
     | cons y rest' =>
       obtain ⟨e2, he2, h2⟩ := ih (litOperand ps c).1 (fun z hz => hwf z (by simp [hz]))
@@ -798,18 +808,20 @@ theorem pagingAlt_spec (env : String → Val) (nm : Names) (s : Schema) (ent : N
       have hrhs : operand (bindVal env ((pagingAlt nm ent before (litOperand ps c).1 (y :: rest')).1 ++ more))
           (litOperand ps c).2 = SqlVal.ofScalar c := by
         rw [he2, List.append_assoc]; exact hst _
-      have hA := atom_true_iff _ _ _ _ _ .eq _ c (lhsVal_order nm s ent hinj sels hdist r hr o ho) hrhs
+      have hA := atom_true_iff _ _ _ _ _ .eq _ c (lhsVal_order nm s ent hinj sels V hV r hr o ho) hrhs
       simp only [cmpOp] at hA
       rw [hA]
       rw [h2 more r hr]
 
 theorem pagingLoop_spec (env : String → Val) (nm : Names) (s : Schema) (ent : Nat)
     (hinj : ∀ a b, nm.fieldShort ent a = nm.fieldShort ent b → a = b)
-    (sels : List Sel) (hdist : distinctKeys (sels.map Sel.key) = true) (before : Bool) :
+    (sels : List Sel) (V : Row → List (String × J))
+    (hV : ∀ (r : Row) (name : String) (fld : Nat), sels.any (isScalarSel name fld) = true →
+      assoc name (V r) = some (projSpec s r (.scalar name fld)).2) (before : Bool) :
     ∀ (pl : List (List (Order × Val))) (ps : Binds), (∀ p ∈ pl, ∀ x ∈ p, OrderWf s ent sels x.1) →
       ∃ e, (pagingLoop nm ent before ps pl).1 = ps ++ e ∧
         ∀ (more : Binds) (r : Row), r.ent = ent →
-          (paging3 (bindVal env ((pagingLoop nm ent before ps pl).1 ++ more)) (encodeRow nm r) (sels.map (projSpec s r))
+          (paging3 (bindVal env ((pagingLoop nm ent before ps pl).1 ++ more)) (encodeRow nm r) (V r)
               (pagingLoop nm ent before ps pl).2 = some true ↔
             pl.any (altHolds before (keyOf D s ent r)) = true) := by
   intro pl
@@ -817,7 +829,7 @@ theorem pagingLoop_spec (env : String → Val) (nm : Names) (s : Schema) (ent : 
   | nil => intro ps _; exact ⟨[], by simp [pagingLoop], fun _ _ _ => by simp [pagingLoop, paging3, any3]⟩
   | cons p rest ih =>
     intro ps hwf
-    obtain ⟨e1, he1, h1⟩ := pagingAlt_spec env nm s ent hinj sels hdist before p ps (hwf p (by simp))
+    obtain ⟨e1, he1, h1⟩ := pagingAlt_spec env nm s ent hinj sels V hV before p ps (hwf p (by simp))
     obtain ⟨e2, he2, h2⟩ := ih (pagingAlt nm ent before ps p).1 (fun q hq => hwf q (by simp [hq]))
     refine ⟨e1 ++ e2, by simp only [pagingLoop]; rw [he2, he1, List.append_assoc], ?_⟩
     intro more r hr
@@ -988,8 +1000,8 @@ theorem subPresent_frag (s : Schema) (data : Data) (fuel : Nat) (key : String) (
 
 theorem holds_frag (s : Schema) (data : Data) (fuel : Nat) (key : String) (q : Query) (r : Row) (f : Filter)
     (hj : f.jpath = none) (ho : f.onRef = false) :
-    holds D s data (fuel + 1) key q r f = filterHolds D s q.ent r f := by
-  simp [holds, hj, ho]
+    holds D s data fuel key q r f = filterHolds D s q.ent r f := by
+  cases fuel <;> simp [holds, hj, ho]
 
 theorem project_frag (s : Schema) (data : Data) (fuel : Nat) (key : String) (q : Query) (r : Row)
     (hr : r.ent = q.ent) (hs : ∀ sel ∈ q.sels, selOk s q.ent sel = true) :
@@ -1035,24 +1047,31 @@ theorem pagingLoop_cons_ne (nm : Names) (ent : Nat) (before : Bool) (ps : Binds)
     (rest : List (List (Order × Val))) : (pagingLoop nm ent before ps (p :: rest)).2.isEmpty = false := by
   simp [pagingLoop]
 
-/-- the three clauses of the compiled statement on a stored row of the query's entity -/
-theorem compile_parts (env : String → Val) (nm : Names) (s : Schema) (vn : Nat → String) (q : Query)
+/-- the three clauses of the statement compiled from the bind list `ps`, on a stored row of the query's entity,
+    read under any extension `more` of the statement's bind list -/
+theorem compileFrom_parts (env : String → Val) (nm : Names) (s : Schema) (vn : Nat → String) (q : Query) (ps : Binds)
     (hfrag : inFragment s q = true)
     (hfld : ∀ a b, nm.fieldShort q.ent a = nm.fieldShort q.ent b → a = b)
-    (henv : ∀ i f, q.filters[i]? = some f → f.isParam = true → env (vn i) = f.value)
-    (r : Row) (hr : r.ent = q.ent) :
-    valueOf (bindVal env (compile nm s vn q).binds) (compile nm s vn q).proj (encodeRow nm r) = q.sels.map (projSpec s r) ∧
-    ((∀ c ∈ (compile nm s vn q).filters,
-        cond3 (bindVal env (compile nm s vn q).binds) (encodeRow nm r) (q.sels.map (projSpec s r)) c = some true) ↔
-      ∀ f ∈ q.filters, filterHolds D s q.ent r f = true) ∧
-    (((compile nm s vn q).paging.isEmpty = true ∨
-        paging3 (bindVal env (compile nm s vn q).binds) (encodeRow nm r) (q.sels.map (projSpec s r))
-          (compile nm s vn q).paging = some true) ↔
-      cursorHolds D q.orders q.after q.before (keysOf D s q.ent q.orders r) = true) := by
+    (henv : ∀ i f, q.filters[i]? = some f → f.isParam = true → env (vn i) = f.value) :
+    ∃ e, (compileFrom nm s vn ps q).binds = ps ++ e ∧
+      ∀ (more : Binds) (r : Row), r.ent = q.ent →
+        valueOf (bindVal env ((compileFrom nm s vn ps q).binds ++ more)) (compileFrom nm s vn ps q).proj (encodeRow nm r) =
+          q.sels.map (projSpec s r) ∧
+        ((∀ c ∈ (compileFrom nm s vn ps q).filters,
+            cond3 (bindVal env ((compileFrom nm s vn ps q).binds ++ more)) (encodeRow nm r) (q.sels.map (projSpec s r)) c =
+              some true) ↔
+          ∀ f ∈ q.filters, filterHolds D s q.ent r f = true) ∧
+        (((compileFrom nm s vn ps q).paging.isEmpty = true ∨
+            paging3 (bindVal env ((compileFrom nm s vn ps q).binds ++ more)) (encodeRow nm r) (q.sels.map (projSpec s r))
+              (compileFrom nm s vn ps q).paging = some true) ↔
+          cursorHolds D q.orders q.after q.before (keysOf D s q.ent q.orders r) = true) := by
   obtain ⟨hsels, hdist, hfil, hord, hcur, hla, hlb⟩ := inFragment_parts hfrag
-  obtain ⟨e1, he1, hproj⟩ := projLoop_spec env nm s q.ent hfld q.sels [] hsels
-  obtain ⟨e2, he2, hflt⟩ := filtersLoop_spec env nm s q.ent hfld q.sels hdist vn q.filters
-    (projLoop nm s q.ent [] q.sels).1 0 (fun f hf => (hfil f hf).2.2)
+  obtain ⟨e1, he1, hproj⟩ := projLoop_spec env nm s q.ent hfld q.sels ps hsels
+  have hV : ∀ (r : Row) (name : String) (fld : Nat), q.sels.any (isScalarSel name fld) = true →
+      assoc name (q.sels.map (projSpec s r)) = some (projSpec s r (.scalar name fld)).2 :=
+    fun r name fld ha => assoc_projSpec s r name fld q.sels hdist ha
+  obtain ⟨e2, he2, hflt⟩ := filtersLoop_spec env nm s q.ent hfld q.sels (fun r => q.sels.map (projSpec s r)) hV vn q.filters
+    (projLoop nm s q.ent ps q.sels).1 0 (fun f hf => (hfil f hf).2.2)
     (fun j f hj hp => by have := henv j f hj hp; simpa using this)
   -- the paging alternatives
   have hwfp : ∀ cs : List Val, ∀ p ∈ inits1 (q.orders.zip cs), ∀ x ∈ p, OrderWf s q.ent q.sels x.1 := by
@@ -1060,23 +1079,26 @@ theorem compile_parts (env : String → Val) (nm : Names) (s : Schema) (vn : Nat
     have hxz := inits1_mem _ p hp x hx
     obtain ⟨o, c⟩ := x
     exact hord o (List.of_mem_zip hxz).1
-  obtain ⟨e3, he3, hpg⟩ := pagingLoop_spec env nm s q.ent hfld q.sels hdist (!q.before.isEmpty)
+  obtain ⟨e3, he3, hpg⟩ := pagingLoop_spec env nm s q.ent hfld q.sels (fun r => q.sels.map (projSpec s r)) hV (!q.before.isEmpty)
     (inits1 (q.orders.zip (if (!q.before.isEmpty) = true then q.before else q.after)))
-    (filtersLoop nm s q.ent vn (projLoop nm s q.ent [] q.sels).1 0 q.filters).1 (hwfp _)
-  have hbinds : (compile nm s vn q).binds =
-      (pagingLoop nm q.ent (!q.before.isEmpty) (filtersLoop nm s q.ent vn (projLoop nm s q.ent [] q.sels).1 0 q.filters).1
+    (filtersLoop nm s q.ent vn (projLoop nm s q.ent ps q.sels).1 0 q.filters).1 (hwfp _)
+  have hbinds : (compileFrom nm s vn ps q).binds =
+      (pagingLoop nm q.ent (!q.before.isEmpty) (filtersLoop nm s q.ent vn (projLoop nm s q.ent ps q.sels).1 0 q.filters).1
         (inits1 (q.orders.zip (if (!q.before.isEmpty) = true then q.before else q.after)))).1 := rfl
+  refine ⟨e1 ++ (e2 ++ e3), by rw [hbinds, he3, he2, he1]; simp only [List.append_assoc], ?_⟩
+  intro more r hr
   refine ⟨?_, ?_, ?_⟩
-  · have := hproj (e2 ++ e3) r hr
-    rw [hbinds, he3, he2, List.append_assoc]
+  · have := hproj (e2 ++ (e3 ++ more)) r hr
+    rw [hbinds, he3, he2]
+    simp only [List.append_assoc]
     exact this
-  · have := hflt e3 r hr
+  · have := hflt (e3 ++ more) r hr
     rw [hbinds, he3]
+    simp only [List.append_assoc]
     exact this
-  · have hp := hpg [] r hr
-    rw [List.append_nil] at hp
-    have hpaging : (compile nm s vn q).paging =
-        (pagingLoop nm q.ent (!q.before.isEmpty) (filtersLoop nm s q.ent vn (projLoop nm s q.ent [] q.sels).1 0 q.filters).1
+  · have hp := hpg more r hr
+    have hpaging : (compileFrom nm s vn ps q).paging =
+        (pagingLoop nm q.ent (!q.before.isEmpty) (filtersLoop nm s q.ent vn (projLoop nm s q.ent ps q.sels).1 0 q.filters).1
           (inits1 (q.orders.zip (if (!q.before.isEmpty) = true then q.before else q.after)))).2 := rfl
     rw [hpaging, hbinds, hp]
     have hkeys : keysOf D s q.ent q.orders r = q.orders.map (keyOf D s q.ent r) := rfl
@@ -1091,7 +1113,7 @@ theorem compile_parts (env : String → Val) (nm : Names) (s : Schema) (vn : Nat
         | nil => rw [ha, hos] at hla; simp at hla
         | cons o os =>
           have hne : (pagingLoop nm q.ent (!([] : List Val).isEmpty)
-              (filtersLoop nm s q.ent vn (projLoop nm s q.ent [] q.sels).1 0 q.filters).1
+              (filtersLoop nm s q.ent vn (projLoop nm s q.ent ps q.sels).1 0 q.filters).1
               (inits1 ((o :: os).zip (if (!([] : List Val).isEmpty) = true then [] else a :: as)))).2.isEmpty = false := by
             simp only [List.isEmpty_nil, Bool.not_true, Bool.false_eq_true, if_false, List.zip_cons_cons, inits1]
             exact pagingLoop_cons_ne ..
@@ -1108,7 +1130,7 @@ theorem compile_parts (env : String → Val) (nm : Names) (s : Schema) (vn : Nat
       | nil => rw [hb, hos] at hlb; simp at hlb
       | cons o os =>
         have hne : (pagingLoop nm q.ent (!(b :: bs).isEmpty)
-            (filtersLoop nm s q.ent vn (projLoop nm s q.ent [] q.sels).1 0 q.filters).1
+            (filtersLoop nm s q.ent vn (projLoop nm s q.ent ps q.sels).1 0 q.filters).1
             (inits1 ((o :: os).zip (if (!(b :: bs).isEmpty) = true then b :: bs else q.after)))).2.isEmpty = false := by
           simp only [List.isEmpty_cons, Bool.not_false, if_true, List.zip_cons_cons, inits1]
           exact pagingLoop_cons_ne ..
@@ -1150,49 +1172,141 @@ theorem whereHolds_iff (st : SqlSelect) (bv : Nat → SqlVal) (row : NodeRow) :
         · rw [hp] at h3; exact absurd h3 (by simp)
         · rw [hx]; exact h3
 
+/-- the rows the evaluator keeps: of the entity, satisfying every filter and the cursor -/
+def keep (s : Schema) (q : Query) (r : Row) : Bool :=
+  decide (r.ent = q.ent) && q.filters.all (filterHolds D s q.ent r) &&
+    cursorHolds D q.orders q.after q.before (keysOf D s q.ent q.orders r)
+
+/-- the evaluator's order of two rows -/
+def rowLe (s : Schema) (q : Query) (a b : Row) : Bool :=
+  tupleLe q.orders (keysOf D s q.ent q.orders a) (keysOf D s q.ent q.orders b)
+
 /-- **WHERE**: the compiled condition keeps exactly the rows of the entity that satisfy every filter and the cursor -/
-theorem whereHolds_spec (env : String → Val) (nm : Names) (s : Schema) (vn : Nat → String) (q : Query)
+theorem whereHolds_spec (env : String → Val) (nm : Names) (s : Schema) (vn : Nat → String) (q : Query) (ps more : Binds)
     (hfrag : inFragment s q = true)
     (hent : ∀ a b, nm.entShort a = nm.entShort b → a = b)
     (hfld : ∀ a b, nm.fieldShort q.ent a = nm.fieldShort q.ent b → a = b)
     (henv : ∀ i f, q.filters[i]? = some f → f.isParam = true → env (vn i) = f.value)
     (r : Row) :
-    whereHolds (compile nm s vn q) (bindVal env (compile nm s vn q).binds) (encodeRow nm r) =
-      (decide (r.ent = q.ent) && q.filters.all (filterHolds D s q.ent r) &&
-        cursorHolds D q.orders q.after q.before (keysOf D s q.ent q.orders r)) := by
+    whereHolds (compileFrom nm s vn ps q) (bindVal env ((compileFrom nm s vn ps q).binds ++ more)) (encodeRow nm r) =
+      keep s q r := by
+  obtain ⟨_, _, hparts⟩ := compileFrom_parts env nm s vn q ps hfrag hfld henv
   rw [Bool.eq_iff_iff, whereHolds_iff]
-  simp only [Bool.and_eq_true, decide_eq_true_eq, List.all_eq_true]
-  have hentity : (encodeRow nm r).entity = (compile nm s vn q).entity ↔ r.ent = q.ent := by
+  simp only [keep, Bool.and_eq_true, decide_eq_true_eq, List.all_eq_true]
+  have hentity : (encodeRow nm r).entity = (compileFrom nm s vn ps q).entity ↔ r.ent = q.ent := by
     show nm.entShort r.ent = nm.entShort q.ent ↔ _
     exact ⟨hent _ _, fun h => by rw [h]⟩
   constructor
   · rintro ⟨h1, h2, h3⟩
     have hr := hentity.mp h1
-    obtain ⟨hv, hf, hp⟩ := compile_parts env nm s vn q hfrag hfld henv r hr
+    obtain ⟨hv, hf, hp⟩ := hparts more r hr
     rw [hv] at h2 h3
     exact ⟨⟨hr, hf.mp h2⟩, hp.mp h3⟩
   · rintro ⟨⟨hr, h2⟩, h3⟩
-    obtain ⟨hv, hf, hp⟩ := compile_parts env nm s vn q hfrag hfld henv r hr
+    obtain ⟨hv, hf, hp⟩ := hparts more r hr
     rw [hv]
     exact ⟨hentity.mpr hr, hf.mpr h2, hp.mpr h3⟩
 
-/-- **ORDER BY**: two stored rows of the entity compare as the evaluator's key tuples do -/
-theorem orderKeys_spec (env : String → Val) (nm : Names) (s : Schema) (vn : Nat → String) (q : Query)
+/-- **ORDER BY**: the keys of a stored row of the entity are the evaluator's order keys -/
+theorem orderKeys_spec (env : String → Val) (nm : Names) (s : Schema) (vn : Nat → String) (q : Query) (ps more : Binds)
     (hfrag : inFragment s q = true)
     (hfld : ∀ a b, nm.fieldShort q.ent a = nm.fieldShort q.ent b → a = b)
     (henv : ∀ i f, q.filters[i]? = some f → f.isParam = true → env (vn i) = f.value)
     (r : Row) (hr : r.ent = q.ent) :
-    orderKeys (compile nm s vn q) (bindVal env (compile nm s vn q).binds) (encodeRow nm r) =
+    orderKeys (compileFrom nm s vn ps q) (bindVal env ((compileFrom nm s vn ps q).binds ++ more)) (encodeRow nm r) =
       q.orders.map fun o => SqlVal.ofScalar (keyOf D s q.ent r o) := by
   obtain ⟨_, hdist, _, hord, _, _, _⟩ := inFragment_parts hfrag
-  obtain ⟨hv, _, _⟩ := compile_parts env nm s vn q hfrag hfld henv r hr
+  obtain ⟨_, _, hparts⟩ := compileFrom_parts env nm s vn q ps hfrag hfld henv
+  obtain ⟨hv, _, _⟩ := hparts more r hr
   unfold orderKeys
   rw [hv]
   show (q.orders.map fun o => ({ lhs := orderLhs nm q.ent o, desc := o.desc } : OrderTerm)).map _ = _
   rw [List.map_map]
   apply List.map_congr_left
   intro o ho
-  exact lhsVal_order nm s q.ent hfld q.sels hdist r hr o (hord o ho)
+  exact lhsVal_order nm s q.ent hfld q.sels (fun r => q.sels.map (projSpec s r))
+    (fun r name fld ha => assoc_projSpec s r name fld q.sels hdist ha) r hr o (hord o ho)
+
+theorem mem_keep_ent {s : Schema} {q : Query} {l : List Row} {r : Row} (h : r ∈ l.filter (keep s q)) : r.ent = q.ent := by
+  have := (List.mem_filter.mp h).2
+  simp only [keep, Bool.and_eq_true, decide_eq_true_eq] at this
+  exact this.1.1
+
+/-- the evaluator on a query of the fragment: filter, stable sort (before `first` / `skip`) -/
+theorem evalRows_frag (s : Schema) (data : Data) (fuel : Nat) (key : String) (q : Query) (cands : List Row)
+    (hfrag : inFragment s q = true) :
+    evalRows D s data (fuel + 1) key q cands false = sortBy (rowLe s q) (cands.filter (keep s q)) := by
+  obtain ⟨hsels, _, hfil, _, _, _, _⟩ := inFragment_parts hfrag
+  simp only [evalRows, Bool.false_eq_true, if_false]
+  show List.filter _ (sortBy (rowLe s q) _) = _
+  rw [filter_sortBy (rowLe s q) (fun a b h => tupleLe_total _ _ _ h)
+    (fun a b c h1 h2 => tupleLe_trans _ _ _ _ (keysOf_length ..) (keysOf_length ..) (keysOf_length ..) h1 h2),
+    List.filter_filter]
+  congr 1
+  apply List.filter_congr
+  intro r _
+  have h1 : (q.sels.all fun sel => subPresent D s data fuel key r sel) = true :=
+    List.all_eq_true.mpr fun sel hsel => subPresent_frag s data _ key q.ent r sel (hsels sel hsel)
+  have h2 : q.filters.all (holds D s data fuel key q r) = q.filters.all (filterHolds D s q.ent r) := by
+    rw [Bool.eq_iff_iff]
+    simp only [List.all_eq_true]
+    constructor
+    · intro h f hf
+      rw [← holds_frag s data fuel key q r f (hfil f hf).1 (hfil f hf).2.1]; exact h f hf
+    · intro h f hf
+      rw [holds_frag s data fuel key q r f (hfil f hf).1 (hfil f hf).2.1]; exact h f hf
+  simp only [keep, h1, h2, Bool.and_true]
+  rw [Bool.and_comm]
+
+/-- **WHERE + ORDER BY**: filtering and sorting the stored candidates is the evaluator's selection, row for row -/
+theorem compileFrom_sorted (env : String → Val) (nm : Names) (s : Schema) (vn : Nat → String) (q : Query) (ps more : Binds)
+    (hfrag : inFragment s q = true)
+    (hent : ∀ a b, nm.entShort a = nm.entShort b → a = b)
+    (hfld : ∀ a b, nm.fieldShort q.ent a = nm.fieldShort q.ent b → a = b)
+    (henv : ∀ i f, q.filters[i]? = some f → f.isParam = true → env (vn i) = f.value)
+    (data : Data) (fuel : Nat) (key : String) (cands : List Row) :
+    sortBy (fun a b => !keysLt (compileFrom nm s vn ps q).order
+        (orderKeys (compileFrom nm s vn ps q) (bindVal env ((compileFrom nm s vn ps q).binds ++ more)) b)
+        (orderKeys (compileFrom nm s vn ps q) (bindVal env ((compileFrom nm s vn ps q).binds ++ more)) a))
+      ((cands.map (encodeRow nm)).filter
+        (whereHolds (compileFrom nm s vn ps q) (bindVal env ((compileFrom nm s vn ps q).binds ++ more)))) =
+      (evalRows D s data (fuel + 1) key q cands false).map (encodeRow nm) := by
+  rw [evalRows_frag s data fuel key q cands hfrag, List.filter_map]
+  have hkeep : cands.filter ((whereHolds (compileFrom nm s vn ps q)
+      (bindVal env ((compileFrom nm s vn ps q).binds ++ more))) ∘ encodeRow nm) = cands.filter (keep s q) := by
+    apply List.filter_congr
+    intro r _
+    exact whereHolds_spec env nm s vn q ps more hfrag hent hfld henv r
+  rw [hkeep]
+  apply sortBy_map
+  intro a ha b hb
+  rw [orderKeys_spec env nm s vn q ps more hfrag hfld henv a (mem_keep_ent ha),
+    orderKeys_spec env nm s vn q ps more hfrag hfld henv b (mem_keep_ent hb)]
+  show (!keysLt (q.orders.map fun o => ({ lhs := orderLhs nm q.ent o, desc := o.desc } : OrderTerm)) _ _) = _
+  rw [keysLt_eq]
+  rfl
+
+theorem mem_evalRows_ent (s : Schema) (data : Data) (fuel : Nat) (key : String) (q : Query) (cands : List Row)
+    (hfrag : inFragment s q = true) (lim : Bool) (r : Row) (h : r ∈ evalRows D s data (fuel + 1) key q cands lim) :
+    r.ent = q.ent := by
+  have h' : r ∈ evalRows D s data (fuel + 1) key q cands false := by
+    cases lim with
+    | false => exact h
+    | true => rw [evalRows_limited] at h; exact mem_limit _ _ _ r h
+  rw [evalRows_frag s data fuel key q cands hfrag] at h'
+  exact mem_keep_ent ((mem_sortBy _ r _).mp h')
+
+/-- **projection**: the `json_object` of a stored row of the entity is the evaluator's projection -/
+theorem compileFrom_value (env : String → Val) (nm : Names) (s : Schema) (vn : Nat → String) (q : Query) (ps more : Binds)
+    (hfrag : inFragment s q = true)
+    (hfld : ∀ a b, nm.fieldShort q.ent a = nm.fieldShort q.ent b → a = b)
+    (henv : ∀ i f, q.filters[i]? = some f → f.isParam = true → env (vn i) = f.value)
+    (data : Data) (fuel : Nat) (key : String) (r : Row) (hr : r.ent = q.ent) :
+    J.obj (valueOf (bindVal env ((compileFrom nm s vn ps q).binds ++ more)) (compileFrom nm s vn ps q).proj (encodeRow nm r)) =
+      project D s data (fuel + 1) key q r := by
+  obtain ⟨hsels, _⟩ := inFragment_parts hfrag
+  obtain ⟨_, _, hparts⟩ := compileFrom_parts env nm s vn q ps hfrag hfld henv
+  rw [(hparts more r hr).1, project_frag s data fuel key q r hr hsels]
 
 /-- **the compiled statement computes the evaluator's result** (see `C05_compile_correct`) -/
 theorem compile_correct (nm : Names) (s : Schema) (data : Data) (q : Query) (vn : Nat → String) (env : String → Val)
@@ -1202,85 +1316,37 @@ theorem compile_correct (nm : Names) (s : Schema) (data : Data) (q : Query) (vn 
     (hfld : ∀ a b, nm.fieldShort q.ent a = nm.fieldShort q.ent b → a = b)
     (henv : ∀ i f, q.filters[i]? = some f → f.isParam = true → env (vn i) = f.value) :
     run (encode nm data) (compile nm s vn q) env = eval D s data (fuel + 2) rootKey q := by
-  obtain ⟨hsels, hdist, hfil, hord, hcur, hla, hlb⟩ := inFragment_parts hfrag
-  -- the evaluator's side
+  obtain ⟨hsels, _⟩ := inFragment_parts hfrag
   have hagg : q.isAggregate = false := by
     simp only [Query.isAggregate, List.any_eq_false]
     intro sel hsel
     have := hsels sel hsel
     cases sel <;> simp_all [Sel.isAgg, selOk]
-  let keep : Row → Bool := fun r =>
-    decide (r.ent = q.ent) && q.filters.all (filterHolds D s q.ent r) &&
-      cursorHolds D q.orders q.after q.before (keysOf D s q.ent q.orders r)
-  let le : Row → Row → Bool := fun a b =>
-    tupleLe q.orders (keysOf D s q.ent q.orders a) (keysOf D s q.ent q.orders b)
-  have hrows : evalRows D s data (fuel + 2) rootKey q data true =
-      limit q.first q.skip (sortBy le (data.filter keep)) := by
-    simp only [evalRows, if_true]
-    congr 1
-    rw [filter_sortBy le (fun a b h => tupleLe_total _ _ _ h)
-      (fun a b c h1 h2 => tupleLe_trans _ _ _ _ (keysOf_length ..) (keysOf_length ..) (keysOf_length ..) h1 h2),
-      List.filter_filter]
-    congr 1
-    apply List.filter_congr
-    intro r _
-    have h1 : (q.sels.all fun sel => subPresent D s data (fuel + 1) rootKey r sel) = true :=
-      List.all_eq_true.mpr fun sel hsel => subPresent_frag s data _ rootKey q.ent r sel (hsels sel hsel)
-    have h2 : q.filters.all (holds D s data (fuel + 1) rootKey q r) = q.filters.all (filterHolds D s q.ent r) := by
-      rw [Bool.eq_iff_iff]
-      simp only [List.all_eq_true]
-      constructor
-      · intro h f hf
-        rw [← holds_frag s data fuel rootKey q r f (hfil f hf).1 (hfil f hf).2.1]; exact h f hf
-      · intro h f hf
-        rw [holds_frag s data fuel rootKey q r f (hfil f hf).1 (hfil f hf).2.1]; exact h f hf
-    simp only [keep, h1, h2, Bool.and_true]
-    rw [Bool.and_comm]
   have heval : eval D s data (fuel + 2) rootKey q =
-      (limit q.first q.skip (sortBy le (data.filter keep))).map (project D s data (fuel + 1) rootKey q) := by
+      (limit q.first q.skip (evalRows D s data (fuel + 2) rootKey q data false)).map
+        (project D s data (fuel + 1) rootKey q) := by
     simp only [eval, hagg, Bool.false_eq_true, if_false, evalList]
-    rw [hrows]
+    rw [evalRows_limited]
   rw [heval]
-  -- the statement's side
-  show (applyLimit (compile nm s vn q).limit (compile nm s vn q).offset
-      (sortBy (fun a b => !keysLt (compile nm s vn q).order
-          (orderKeys (compile nm s vn q) (bindVal env (compile nm s vn q).binds) b)
-          (orderKeys (compile nm s vn q) (bindVal env (compile nm s vn q).binds) a))
-        ((data.map (encodeRow nm)).filter (whereHolds (compile nm s vn q) (bindVal env (compile nm s vn q).binds))))).map
-      (fun row => J.obj (valueOf (bindVal env (compile nm s vn q).binds) (compile nm s vn q).proj row)) = _
-  rw [List.filter_map]
-  have hkeep : data.filter ((whereHolds (compile nm s vn q) (bindVal env (compile nm s vn q).binds)) ∘ encodeRow nm) =
-      data.filter keep := by
-    apply List.filter_congr
-    intro r _
-    exact whereHolds_spec env nm s vn q hfrag hent hfld henv r
-  rw [hkeep]
-  have hkeepent : ∀ r ∈ data.filter keep, r.ent = q.ent := by
-    intro r hr
-    have := (List.mem_filter.mp hr).2
-    simp only [keep, Bool.and_eq_true, decide_eq_true_eq] at this
-    exact this.1.1
-  have hsort : sortBy (fun a b => !keysLt (compile nm s vn q).order
-        (orderKeys (compile nm s vn q) (bindVal env (compile nm s vn q).binds) b)
-        (orderKeys (compile nm s vn q) (bindVal env (compile nm s vn q).binds) a))
-      ((data.filter keep).map (encodeRow nm)) = (sortBy le (data.filter keep)).map (encodeRow nm) := by
-    apply sortBy_map
-    intro a ha b hb
-    rw [orderKeys_spec env nm s vn q hfrag hfld henv a (hkeepent a ha),
-      orderKeys_spec env nm s vn q hfrag hfld henv b (hkeepent b hb)]
-    show (!keysLt (q.orders.map fun o => ({ lhs := orderLhs nm q.ent o, desc := o.desc } : OrderTerm)) _ _) = _
-    rw [keysLt_eq]
-    rfl
-  rw [hsort]
-  have hlim : (compile nm s vn q).limit = (limitOf q.first q.skip).1 ∧ (compile nm s vn q).offset = (limitOf q.first q.skip).2 :=
-    ⟨rfl, rfl⟩
+  have hsorted := compileFrom_sorted env nm s vn q [] [] hfrag hent hfld henv data (fuel + 1) rootKey data
+  rw [List.append_nil] at hsorted
+  show (applyLimit (compileFrom nm s vn [] q).limit (compileFrom nm s vn [] q).offset
+      (sortBy (fun a b => !keysLt (compileFrom nm s vn [] q).order
+          (orderKeys (compileFrom nm s vn [] q) (bindVal env (compileFrom nm s vn [] q).binds) b)
+          (orderKeys (compileFrom nm s vn [] q) (bindVal env (compileFrom nm s vn [] q).binds) a))
+        ((data.map (encodeRow nm)).filter (whereHolds (compileFrom nm s vn [] q) (bindVal env (compileFrom nm s vn [] q).binds))))).map
+      (fun row => J.obj (valueOf (bindVal env (compileFrom nm s vn [] q).binds) (compileFrom nm s vn [] q).proj row)) = _
+  rw [hsorted]
+  have hlim : (compileFrom nm s vn [] q).limit = (limitOf q.first q.skip).1 ∧
+      (compileFrom nm s vn [] q).offset = (limitOf q.first q.skip).2 := ⟨rfl, rfl⟩
   rw [hlim.1, hlim.2, applyLimit_map, applyLimit_eq, List.map_map]
   apply List.map_congr_left
   intro r hr
   have hrent : r.ent = q.ent :=
-    hkeepent r ((mem_sortBy le r _).mp (mem_limit _ _ _ r hr))
-  obtain ⟨hv, _, _⟩ := compile_parts env nm s vn q hfrag hfld henv r hrent
+    mem_evalRows_ent s data (fuel + 1) rootKey q data hfrag false r (mem_limit _ _ _ r hr)
+  have := compileFrom_value env nm s vn q [] [] hfrag hfld henv data fuel rootKey r hrent
+  rw [List.append_nil] at this
   simp only [Function.comp]
-  rw [hv, project_frag s data fuel rootKey q r hrent hsels]
+  exact this
 
 end Discret.SqlCompile
